@@ -491,7 +491,16 @@ func TestLive(t *testing.T) {
 		default:
 		}
 		x.c = last
-		if bad := x.probe(env); len(bad) > 0 {
+		// a listener counts as unresponsive only if it stays so: three rounds (each with its own retries and
+		// multi-second deadlines) spread over several seconds
+		var bad []string
+		for round := 0; round < 3; round++ {
+			if bad = x.probe(env); len(bad) == 0 {
+				break
+			}
+			time.Sleep(3 * time.Second)
+		}
+		if len(bad) > 0 {
 			x.violation("live/unresponsive", fmt.Sprintf("after hostile inputs the service no longer serves well-formed requests: %v", bad))
 			return false
 		}
